@@ -510,6 +510,12 @@ func (e *Exec) runBlocks(fr *frame) {
 		}
 		if fr.block.Index <= blk.Index {
 			fr.backEdges++
+			if e.path != nil && e.path.loopBound > 0 && fr.backEdges > e.path.loopBound {
+				// the harness bounded every loop of the code under test: running past the bound is non-termination
+				// (or time not proportional to what the input spells out)
+				e.path.failures = append(e.path.failures, Failure{Kind: "nonterm", Label: fr.fn.String(), Msg: fmt.Sprintf("a loop in %s runs for more than %d iterations (harness loop bound)", fr.fn, e.path.loopBound), Model: e.path.model.clone()})
+				panic(pathEnd{"loop bound"})
+			}
 			if fr.backEdges > e.w.maxBackEdges {
 				panic(abortErr{"unwind", fmt.Sprintf("loop unwinding limit (%d back-edges) exceeded in %s", e.w.maxBackEdges, fr.fn)})
 			}
